@@ -34,6 +34,13 @@ def jobs(tier, seed):
                      {'template': name, 'max_indices': 3 if (thorough or name == 'u-plain') else 2, 'no_missing': not thorough and name != 'c-one',
                       'max_diff_width': 2 if thorough else 1},
                      timeout=6000 if thorough else 900, witnesses=['refused', 'subset-1', 'subset-2']))
+    # more subsets than any small-integer shortcut survives (e.g. the iteration order of a set of indices): 9 / 10 subsets
+    J.append(Job('subset:many:u-plain', 'harness.c10', 'h_subset', {'template': 'u-plain', 'n_subsets': 10, 'nbits': 160, 'max_indices': 3 if thorough else 2,
+                                                                   'no_missing': True}, timeout=7000 if thorough else 1500, witnesses=['refused', 'subset-2']))
+    if thorough:
+      J.append(Job('subset:many:c-one', 'harness.c10', 'h_subset', {'template': 'c-one', 'n_subsets': 9, 'nbits': 64, 'max_indices': 2, 'no_missing': True,
+                                                                 'max_diff_width': 2}, timeout=7000 if thorough else 1500, witnesses=['refused', 'subset-2'],
+                 core=False))
     J.append(Job('canary:repeated-index', 'harness.c10', 'h_subset', {'template': 'u-plain', 'max_indices': 2, 'no_missing': True}, timeout=600,
                  max_cex=1, mutate='pybufrkit.bufr::len(set(subset_indices)) if parameter.name-->>len(subset_indices) if parameter.name'))
     J.append(Job('canary:upper-bound', 'harness.c10', 'h_subset', {'template': 'u-plain', 'max_indices': 1, 'no_missing': True}, timeout=600,
